@@ -53,8 +53,11 @@ def decode_doc(d):
             n["attrs"]["stroke"] = d.choice(docgen.PALETTE + ["none"])
         if d.chance(2, 8):
             n["attrs"]["stroke-width"] = d.choice(["2", "0.5", "3", "1.5"])
-        if d.chance(1, 8):
-            n["attrs"]["fill-opacity"] = d.choice(["0.5", "0.25"])
+        # (an opacity of 1 on a shape resets what a container above it says)
+        if d.chance(2, 8):
+            n["attrs"]["fill-opacity"] = d.choice(["0.5", "0.25", "1", "0.4", "1.0"])
+        if d.chance(2, 8):
+            n["attrs"]["stroke-opacity"] = d.choice(["0.5", "0.75", "1", "0.4", "1"])
     return {"kind": "doc", "doc": doc, "reify": d.bool(), "route": d.choice(["string", "string", "file", "svgz"])}
 
 
